@@ -11,6 +11,7 @@
 -/
 import RxModel.Spec.OpLang
 import RxModel.Model.Api
+import RxModel.Proofs.TermLemmas
 namespace Rx.C06
 open Rx
 
@@ -50,24 +51,175 @@ where simplePreChild : Op → Bool
   | .atom cs => !cs.isEmpty
   | _ => true
 
+/-- an unambiguous repeat over a single character -/
+theorem unambGen_leaf_term (ctx : Ctx) (b : Bool) (c : Op) (hl : isLeaf1 c = true) (mn mx : Nat)
+    (p : Nat) (st : St) (hm : MarkOk b st) : (unambGen ctx (sem ctx c) mn mx p st).Term (MarkOk b) :=
+  unambGen_term (D := fun _ => True) (d := 1) ctx
+    (fun p st _ => leaf_bounds ctx c hl p st) (fun p st _ h => leaf_term ctx c hl p st h)
+    (Nat.le_refl _) mn mx p trivial st hm
+
+theorem simplePre_leaf (c : Op) (h1 : isAtomOrClass c = true)
+    (h2 : simplePre.simplePreChild c = true) : isLeaf1 c = true := by
+  cases c <;> first | exact h2 | rfl | (simp [isAtomOrClass] at h1)
+
+/-- the generic form of `pre_no_diverge` -/
+theorem pre_term (ctx : Ctx) (b : Bool) (op : Op) (h : simplePre op = true) (p : Nat) (st : St)
+    (hm : MarkOk b st) : (sem ctx op p st).Term (MarkOk b) := by
+  cases op with
+  | atom cs => simp only [sem]; exact atomGen_term ctx cs p st hm
+  | cls rs => simp only [sem]; exact clsGen_term ctx rs p st hm
+  | rep id c mn mx g =>
+    simp only [simplePre, Bool.and_eq_true, Bool.or_eq_true, decide_eq_true_eq] at h
+    obtain ⟨⟨⟨⟨h1, h2⟩, _⟩, _⟩, hg⟩ := h
+    have hl := simplePre_leaf c h1 h2
+    have hB : ∀ p st, True → (sem ctx c p st).All (fun n => True ∧ p + 1 ≤ n ∧ n ≤ ctx.len) :=
+      fun p st _ => leaf_bounds ctx c hl p st
+    have hT : ∀ p st, True → MarkOk b st → (sem ctx c p st).Term (MarkOk b) :=
+      fun p st _ h => leaf_term ctx c hl p st h
+    cases g with
+    | true =>
+      simp only [sem, if_true]
+      exact repGreedyGen_term (D := fun _ => True) ctx hB hT id mn mx p trivial st hm
+    | false =>
+      simp only [sem, Bool.false_eq_true, if_false]
+      have hmn : mn < ctx.len + 1000 := by
+        rcases hg with h | h
+        · cases h
+        · omega
+      exact repReluctantGen_term (D := fun _ => True) ctx hB hT mn mx hmn p trivial st hm
+  | gfixed c mn mx len =>
+    simp only [simplePre, Bool.and_eq_true, decide_eq_true_eq, beq_iff_eq] at h
+    obtain ⟨⟨⟨⟨⟨⟨h1, h2⟩, _⟩, hlen0⟩, _⟩, _⟩, _⟩ := h
+    have hl := simplePre_leaf c h1 h2
+    simp only [sem]
+    exact gfixedGen_term ctx mn mx len hlen0 (fun p st _ h => leaf_term ctx c hl p st h) p st hm
+  | rfixed c mn mx len =>
+    simp only [simplePre, Bool.and_eq_true, decide_eq_true_eq, beq_iff_eq] at h
+    obtain ⟨⟨⟨⟨⟨⟨h1, h2⟩, _⟩, _⟩, _⟩, _⟩, _⟩ := h
+    have hl := simplePre_leaf c h1 h2
+    simp only [sem]
+    exact rfixedGen_term (D := fun _ => True) (d := 1) ctx
+      (fun p st _ => leaf_bounds ctx c hl p st) (fun p st _ h => leaf_term ctx c hl p st h)
+      (Nat.le_refl _) mn mx p trivial st hm
+  | unamb c mn mx =>
+    simp only [simplePre, Bool.and_eq_true, decide_eq_true_eq] at h
+    obtain ⟨⟨⟨h1, h2⟩, _⟩, _⟩ := h
+    simp only [sem]
+    exact unambGen_leaf_term ctx b c (simplePre_leaf c h1 h2) mn mx p st hm
+  | _ => simp [simplePre] at h
+
 /-- a precondition operation terminates at every position, also beyond the input -/
 theorem pre_no_diverge (ctx : Ctx) (op : Op) (h : simplePre op = true) (p : Nat) (st : St) (hm : NoDivMark st) :
-    (sem ctx op p st).NoDiv ∧ (sem ctx op p st).Inv NoDivMark := by
-  sorry
+    (sem ctx op p st).NoDiv ∧ (sem ctx op p st).Inv NoDivMark :=
+  term_pack (fun b => pre_term ctx b op h p st (fun _ => hm))
 
+/-! the generic form of `sem_no_diverge`: by structural recursion over the tree, the body of every
+    repeat terminates at every position inside the input, which is where the repeat calls it -/
+mutual
+theorem sem_term (ctx : Ctx) (b : Bool) : (op : Op) → wfOp op = true → smallMin ctx.len op = true →
+    ∀ p, p ≤ ctx.len → ∀ st, MarkOk b st → (sem ctx op p st).Term (MarkOk b)
+  | .bol, _, _, p, _, st, hm => by simp only [sem]; exact bolGen_term ctx p st hm
+  | .eol, _, _, p, _, st, hm => by simp only [sem]; exact eolGen_term ctx p st hm
+  | .nothing, _, _, p, _, st, hm => by simp only [sem]; exact nothingGen_term p st hm
+  | .endProgram, _, _, p, _, st, hm => by simp only [sem]; exact endGen_term p st hm
+  | .atom cs, _, _, p, _, st, hm => by simp only [sem]; exact atomGen_term ctx cs p st hm
+  | .cls rs, _, _, p, _, st, hm => by simp only [sem]; exact clsGen_term ctx rs p st hm
+  | .backref g, _, _, p, _, st, hm => by simp only [sem]; exact backrefGen_term ctx g p st hm
+  | .capture g c, hwf, hs, p, hp, st, hm => by
+    simp only [wfOp] at hwf
+    simp only [smallMin] at hs
+    simp only [sem]
+    exact captureGen_term ctx g (fun st h => sem_term ctx b c hwf hs p hp st h) st hm
+  | .choice bs, hwf, hs, p, hp, st, hm => by
+    simp only [wfOp, Bool.and_eq_true] at hwf
+    simp only [smallMin] at hs
+    simp only [sem]
+    exact sem_term_choice ctx b bs hwf.2 hs p hp st hm
+  | .seq ops, hwf, hs, p, hp, st, hm => by
+    simp only [wfOp, Bool.and_eq_true] at hwf
+    simp only [smallMin] at hs
+    simp only [sem]
+    exact seqGen_term _ (fun st h => sem_term_seq ctx b ops hwf.2 hs p hp st h) st hm
+  | .rep id c mn mx g, hwf, hs, p, hp, st, hm => by
+    simp only [wfOp, Bool.and_eq_true, decide_eq_true_eq] at hwf
+    obtain ⟨⟨hwc, _⟩, _⟩ := hwf
+    simp only [smallMin, Bool.and_eq_true, Bool.or_eq_true, decide_eq_true_eq] at hs
+    obtain ⟨hsc, hg⟩ := hs
+    have hB := sem_boundsD ctx c hwc
+    have hT : ∀ p st, p ≤ ctx.len → MarkOk b st → (sem ctx c p st).Term (MarkOk b) :=
+      fun p st hp h => sem_term ctx b c hwc hsc p hp st h
+    cases g with
+    | true =>
+      simp only [sem, if_true]
+      exact repGreedyGen_term (D := fun p => p ≤ ctx.len) ctx hB hT id mn mx p hp st hm
+    | false =>
+      simp only [sem, Bool.false_eq_true, if_false]
+      have hmn : mn < ctx.len + 1000 := by
+        rcases hg with h | h
+        · cases h
+        · exact h
+      exact repReluctantGen_term (D := fun p => p ≤ ctx.len) ctx hB hT mn mx hmn p hp st hm
+  | .gfixed c mn mx len, hwf, hs, p, hp, st, hm => by
+    simp only [wfOp, Bool.and_eq_true, decide_eq_true_eq, beq_iff_eq] at hwf
+    obtain ⟨⟨⟨⟨⟨hwc, _⟩, hlen0⟩, _⟩, _⟩, _⟩ := hwf
+    simp only [smallMin] at hs
+    simp only [sem]
+    exact gfixedGen_term ctx mn mx len hlen0
+      (fun p st hp h => sem_term ctx b c hwc hs p hp st h) p st hm
+  | .rfixed c mn mx len, hwf, hs, p, hp, st, hm => by
+    simp only [wfOp, Bool.and_eq_true, decide_eq_true_eq, beq_iff_eq] at hwf
+    obtain ⟨⟨⟨⟨⟨hwc, hc⟩, hlen0⟩, hlen1⟩, _⟩, _⟩ := hwf
+    simp only [smallMin] at hs
+    simp only [sem]
+    have hB := sem_boundsLen ctx c hwc len hc hlen1
+    have hT : ∀ p st, p ≤ ctx.len → MarkOk b st → (sem ctx c p st).Term (MarkOk b) :=
+      fun p st hp h => sem_term ctx b c hwc hs p hp st h
+    exact rfixedGen_term (D := fun p => p ≤ ctx.len) ctx hB hT hlen0 mn mx p hp st hm
+  | .unamb c mn mx, _, hs, p, _, st, hm => by
+    have hl : isLeaf1 c = true := by
+      simp only [smallMin] at hs
+      cases c <;> first | exact hs | (simp at hs)
+    simp only [sem]
+    exact unambGen_leaf_term ctx b c hl mn mx p st hm
+termination_by structural op => op
+theorem sem_term_choice (ctx : Ctx) (b : Bool) : (bs : List Op) → wfOps bs = true →
+    smallMinL ctx.len bs = true →
+    ∀ p, p ≤ ctx.len → ∀ st, MarkOk b st → (choiceGen (semL ctx bs) p st).Term (MarkOk b)
+  | [], _, _, p, _, st, hm => by simp only [semL]; exact choiceGen_nil_term p st hm
+  | o :: os, hwf, hs, p, hp, st, hm => by
+    simp only [wfOps, Bool.and_eq_true] at hwf
+    simp only [smallMinL, Bool.and_eq_true] at hs
+    simp only [semL]
+    exact choiceGen_cons_term (fun st h => sem_term ctx b o hwf.1 hs.1 p hp st h)
+      (fun st h => sem_term_choice ctx b os hwf.2 hs.2 p hp st h) st hm
+termination_by structural bs => bs
+theorem sem_term_seq (ctx : Ctx) (b : Bool) : (ops : List Op) → wfOps ops = true →
+    smallMinL ctx.len ops = true →
+    ∀ p, p ≤ ctx.len → ∀ st, MarkOk b st → (seqGo (semL ctx ops) p st).Term (MarkOk b)
+  | [], _, _, p, _, st, hm => by simp only [semL]; exact seqGo_nil_term p st hm
+  | o :: os, hwf, hs, p, hp, st, hm => by
+    simp only [wfOps, Bool.and_eq_true] at hwf
+    simp only [smallMinL, Bool.and_eq_true] at hs
+    simp only [semL]
+    exact seqGo_cons_term (P := fun n => n ≤ ctx.len)
+      (fun st h => sem_term ctx b o hwf.1 hs.1 p hp st h)
+      (fun st => (sem_boundsD ctx o hwf.1 p st hp).mono (fun n h => h.1))
+      (fun n st hn h => sem_term_seq ctx b os hwf.2 hs.2 n hn st h) st hm
+termination_by structural ops => ops
+end
 
 /-- no iterator of a well-formed tree ever diverges, whatever its consumer does, and it never
     raises the divergence marker -/
 theorem sem_no_diverge (ctx : Ctx) (op : Op) (hwf : wfOp op = true) (hs : smallMin ctx.len op = true)
     (p : Nat) (hp : p ≤ ctx.len) (st : St) (h : NoDivMark st) :
-    (sem ctx op p st).NoDiv ∧ (sem ctx op p st).Inv NoDivMark := by
-  sorry
+    (sem ctx op p st).NoDiv ∧ (sem ctx op p st).Inv NoDivMark :=
+  term_pack (fun b => sem_term ctx b op hwf hs p hp st (fun _ => h))
 
 /-- `match_at` terminates -/
 theorem matchAt_no_diverge (ctx : Ctx) (op : Op) (hwf : wfOp op = true) (hs : smallMin ctx.len op = true)
     (j : Nat) (hj : j ≤ ctx.len) (st : St) (h : NoDivMark st) :
-    NoDivMark (matchAt ctx op j st).2 := by
-  sorry
+    NoDivMark (matchAt ctx op j st).2 :=
+  matchAt_mk ctx op j (fun st h => sem_term ctx true op hwf hs j hj st h) st (fun _ => h) rfl
 
 /-- `ForceProgressIterator` cuts every stream of non-decreasing positions bounded by `len` after
     finitely many pulls: at most `5 * (len + 1)` results -/
@@ -77,7 +229,20 @@ theorem force_bounded_remark : True := trivial
 theorem isMatch_no_diverge (pr : Prog) (lower : Nat → Nat) (input : List Nat)
     (hwf : wfOp pr.op = true) (hs : smallMin input.length pr.op = true)
     (hpre : ∀ q ∈ pr.pres, simplePre q.op = true) :
-    pr.isMatch lower input ≠ .diverge := by
-  sorry
+    pr.isMatch lower input ≠ .diverge :=
+  isMatch_ne_diverge pr lower input
+    (matchesFrom_mk (pr.ctx lower input) pr
+      (fun j st hj h => sem_term (pr.ctx lower input) true pr.op hwf hs j hj st h)
+      (fun q hq p st h => pre_term _ true q.op (hpre q hq) p st h)
+      0 (Nat.zero_le _) {} (fun _ => by decide))
+
+/-! non-vacuity: a tree with a reluctant variable repeat, a reluctant fixed repeat, a greedy fixed
+    repeat and an unambiguous repeat satisfies the hypotheses -/
+example : wfOp (.seq [.rep 1 (.choice [.atom [97], .nothing]) 2 usizeMax false,
+      .rfixed (.cls [(48, 58)]) 1 3 1, .gfixed (.atom [98]) 0 usizeMax 1,
+      .unamb (.atom [99]) 0 usizeMax, .endProgram]) = true
+    ∧ smallMin 0 (.seq [.rep 1 (.choice [.atom [97], .nothing]) 2 usizeMax false,
+      .rfixed (.cls [(48, 58)]) 1 3 1, .gfixed (.atom [98]) 0 usizeMax 1,
+      .unamb (.atom [99]) 0 usizeMax, .endProgram]) = true := by decide
 
 end Rx.C06
